@@ -143,6 +143,7 @@ class World:
         self.names = names
         self.objs = {}
         self.client = "shared"
+        self.form = 0
         from .runtime import DEFAULT_NAMES
         inv = {}
         for k, v in names.items():
@@ -190,6 +191,33 @@ class World:
     def prop(self, v, kind, s=False):
         from adcgen import Properties
         return self._get(("prop", v, kind, s), lambda: Properties(self.isr(v, kind, s)))
+
+    def call(self, obj, method, *args, **kwargs):
+        """issue obj.method(...) in the step's *call form*: the same request written
+        positionally, with keywords in declaration order, reversed or rotated, or with the
+        defaults spelled out - all of them are the same request"""
+        import inspect
+        fn = getattr(obj, method)
+        form = self.form
+        if not form:
+            return fn(*args, **kwargs)
+        try:
+            sig = inspect.signature(fn)
+            bound = sig.bind(*args, **kwargs)
+        except (TypeError, ValueError):
+            return fn(*args, **kwargs)
+        if form == 4:
+            bound.apply_defaults()
+            return fn(*bound.args, **bound.kwargs)
+        items = list(bound.arguments.items())
+        if any(sig.parameters[k].kind not in (inspect.Parameter.POSITIONAL_OR_KEYWORD,)
+               for k, _ in items):
+            return fn(*args, **kwargs)
+        if form == 2:
+            items.reverse()
+        elif form == 3 and len(items) > 1:
+            items = items[1:] + items[:1]
+        return fn(**dict(items))
 
     # cache-loss faults
     def live_keys(self):
@@ -295,6 +323,8 @@ def generate(seed, run, tier="quick", overrides=None, template_ids=None):
         else:
             tid = rng.choice(pool)
         st = {"op": "req", "t": tid}
+        if rng.random() < 0.35:
+            st["form"] = rng.choice([1, 2, 3, 4])
         c = cat.BY_ID[tid]["cost"]
         if aborts < max_aborts and tid != last_abort and rng.random() < 0.15:
             st["abort"] = {"kind": rng.choice(["kbi", "kbi", "mem"]), "u": rng.random()}
@@ -350,12 +380,28 @@ class C19Session:
         self._on_violation(d)
 
     # ---------------------------------------------------------------- steps
-    def _call(self, t):
+    def _call(self, t, form=0):
         self.world.client = t["client"]
-        return t["fn"](self.world)
+        self.world.form = form
+        try:
+            return t["fn"](self.world)
+        finally:
+            self.world.form = 0
 
     def do_req(self, st):
         t = cat.BY_ID[st["t"]]
+        # workload precondition (DESIGN 6.2): a target name of the generic generations is only
+        # requested while it has not been handed out as a generic index; afterwards clause
+        # (f) of C08 forces the registry to return the very object that sits in earlier
+        # results as a contracted index
+        if t.get("targets"):
+            from .registry_model import split_names, space_of
+            for n in split_names(t["targets"]):
+                if n[1:] and int(n[1:]) >= 3 and any(
+                        self.model.was_generic((space_of(n), sp), n) for sp in ("", "a", "b")):
+                    self.counts["precondition_skipped"] = \
+                        self.counts.get("precondition_skipped", 0) + 1
+                    return ("done", {"outcome": "skipped-precondition"})
         self.counts["req"] += 1
         if st["t"] in self.seen:
             self.counts["cache_hit_repeat"] += 1
@@ -365,7 +411,7 @@ class C19Session:
         from . import runtime
         t0 = runtime.REAL_PERF()
         try:
-            res = self._call(t)
+            res = self._call(t, st.get("form", 0))
         except self.Inputerror as exc:
             return ("done", {"outcome": "Inputerror", "msg": str(exc)[:120]})
         except Exception as exc:  # noqa: BLE001
@@ -410,6 +456,8 @@ class C19Session:
         self.counts["compared"] += 1
         tid = st["t"]
         self.counts["H4"] += 1
+        if a["outcome"] == "skipped-precondition":
+            return
         if a["outcome"] != ref["outcome"]:
             self.viol("outcome", f"{tid}: outcome {a['outcome']} ({a.get('msg')}), pristine "
                       f"session: {ref['outcome']}", template=tid)
@@ -564,8 +612,6 @@ class C19Session:
 
     def epilogue(self, steps):
         """H5 (recovery): re-issue every aborted request; H2 consequence check"""
-        if not self.fault_fired:
-            return
         for tid in self.aborted_templates:
             self.cur_step = len(self.events)
             st = {"op": "req", "t": tid}
